@@ -32,6 +32,7 @@ func LoadProgram(repo string, patterns []string) (*Program, error) {
 			packages.NeedTypes | packages.NeedTypesSizes | packages.NeedSyntax | packages.NeedTypesInfo | packages.NeedDeps | packages.NeedModule,
 		Dir:   repo,
 		Tests: false,
+		BuildFlags: []string{"-tags=verif"},
 		Env:   append(os.Environ(), "GOFLAGS=-mod=mod", "GOPROXY=off", "GOSUMDB=off", "GOTOOLCHAIN=local"),
 	}
 	pkgs, err := packages.Load(cfg, patterns...)
@@ -85,7 +86,46 @@ func LoadProgram(repo string, patterns []string) (*Program, error) {
 		p.Funcs[key] = fn
 		p.TPkgs[pk.Pkg.Name()] = pk.Pkg
 	}
+	// methods of generic types are not reachable through AllFunctions: add their generic bodies
+	for _, sp := range p.Pkgs {
+		if !strings.HasPrefix(sp.Pkg.Path(), modulePath) {
+			continue
+		}
+		sc := sp.Pkg.Scope()
+		for _, n := range sc.Names() {
+			tn, ok := sc.Lookup(n).(*types.TypeName)
+			if !ok {
+				continue
+			}
+			nt, ok := tn.Type().(*types.Named)
+			if !ok || nt.TypeParams() == nil || nt.TypeParams().Len() == 0 {
+				continue
+			}
+			for i := 0; i < nt.NumMethods(); i++ {
+				fn := prog.FuncValue(nt.Method(i))
+				if fn == nil {
+					continue
+				}
+				p.addGeneric(fn)
+			}
+		}
+	}
 	return p, nil
+}
+
+func (p *Program) addGeneric(fn *ssa.Function) {
+	if p.All[fn] {
+		return
+	}
+	p.All[fn] = true
+	pk := fn.Package()
+	if pk != nil && pk.Pkg != nil {
+		p.Funcs[pk.Pkg.Name()+"."+fn.RelString(pk.Pkg)] = fn
+		p.TPkgs[pk.Pkg.Name()] = pk.Pkg
+	}
+	for _, af := range fn.AnonFuncs {
+		p.addGeneric(af)
+	}
 }
 
 func (p *Program) FuncKey(fn *ssa.Function) string {
